@@ -5,7 +5,7 @@
    constants regenerated into CssV.Gen.UrlQuote, following 57a5489 and 3f41842) on top of C03's
    CssV.Gen.Quote (helper.string / stringvalue / _stringtokenvalue, regenerated, following 546430b),
    CssV.Tokenizer (the shared tokenizer model, with the regenerated URI production).          *)
-From CssV Require Import Base Regex Tokenizer Urls UrlsFacts Quote Gen.Quote QuoteFacts QuoteStrFacts Gen.UrlQuote UrlQuote UrlQuoteFacts.
+From CssV Require Import Base Regex Tokenizer Urls UrlsFacts UrlsExt Quote Gen.Quote QuoteFacts QuoteStrFacts Gen.UrlQuote UrlQuote UrlQuoteFacts.
 
 (* "getUrls yields every URL that occurs in a sheet - the href of each @import first, then each
    url() value of any declaration in style, @font-face, @page and margin rules at any nesting
@@ -68,6 +68,42 @@ Theorem value_determined_by_frame_and_urls : forall v w,
   repl_value (fun _ => []) v = repl_value (fun _ => []) w -> value_urls v = value_urls w -> v = w.
 Proof. exact value_frame. Qed.
 Print Assumptions value_determined_by_frame_and_urls.
+
+(* "exactly those URLs ... and nothing else", as a statement about the replacer: two replacers give
+   the same sheet IF AND ONLY IF they agree on every URL getUrls lists -- the replacer's value on
+   any other string is never observable, and its value on every listed URL is.                  *)
+Theorem replacer_consulted_exactly_on_listed_urls : forall f g sh,
+  replaceUrls false f sh = replaceUrls false g sh <-> (forall u, In u (getUrls sh) -> f u = g u).
+Proof. intros f g sh. split; [apply replace_ext_conv_lemma|apply replace_ext_lemma]. Qed.
+Print Assumptions replacer_consulted_exactly_on_listed_urls.
+
+Theorem replacer_ignoreImportRules_consulted_only_on_declaration_urls : forall f g sh,
+  (forall u, In u (doc_order_urls sh) -> f u = g u) -> replaceUrls true f sh = replaceUrls true g sh.
+Proof. exact replace_ext_ignore_lemma. Qed.
+Print Assumptions replacer_ignoreImportRules_consulted_only_on_declaration_urls.
+
+(* "exactly once": two calls equal one call with the composed replacer (a URL rewritten twice, or
+   skipped, by one call would break this for a non-idempotent replacer); the number of URLs is
+   invariant; a replacer with a left inverse can be undone exactly.                             *)
+Theorem replace_compose : forall b g f sh,
+  replaceUrls b g (replaceUrls b f sh) = replaceUrls b (fun u => g (f u)) sh.
+Proof. exact replace_compose_lemma. Qed.
+Print Assumptions replace_compose.
+
+Theorem replace_keeps_url_count : forall b f sh, length (getUrls (replaceUrls b f sh)) = length (getUrls sh).
+Proof. exact replace_count_lemma. Qed.
+Print Assumptions replace_keeps_url_count.
+
+Theorem replace_undo : forall b f finv sh,
+  (forall u, finv (f u) = u) -> replaceUrls b finv (replaceUrls b f sh) = sh.
+Proof. exact replace_undo_lemma. Qed.
+Print Assumptions replace_undo.
+
+Example replace_compose_nontrivial :
+  let sh := [IImport (s "i"); IRule (RMedia [RPage [[VFun [VUri (s "p"); VOther]]] [RMargin [[VUri (s "m")]]]])] in
+  getUrls (replaceUrls false (fun u => u ++ s "?") (replaceUrls false (fun u => s "/" ++ u) sh))
+  = [s "/i?"; s "/p?"; s "/m?"].
+Proof. vm_compute. reflexivity. Qed.
 
 (* the two defects of the pinned tree this property found (repaired by c79f051 and 92d0ff9):
    the pinned getUrls misses an @page rule's own declarations and URLs nested in function values *)
